@@ -167,32 +167,137 @@ pub fn ct_ops(kit: &Kit, rlk: Option<&RelinKeys>, gk: Option<&GaloisKeys>, good:
     t!("add_plain_new", ev.add_plain_new(bad, plain));
     t!("sub_plain_new", ev.sub_plain_new(bad, plain));
     t!("multiply_plain_new", ev.multiply_plain_new(bad, plain));
+    // the in-place and destination forms of the same operations (each is its own public entry point)
+    t!("negate(dest)", { let mut d = Ciphertext::new(); ev.negate(bad, &mut d) });
+    t!("add(bad,good,dest)", { let mut d = Ciphertext::new(); ev.add(bad, good, &mut d) });
+    t!("add(good,bad,dest)", { let mut d = Ciphertext::new(); ev.add(good, bad, &mut d) });
+    t!("add_inplace(bad,good)", { let mut x = bad.clone(); ev.add_inplace(&mut x, good) });
+    t!("sub_new(good,bad)", ev.sub_new(good, bad));
+    t!("sub(bad,good,dest)", { let mut d = Ciphertext::new(); ev.sub(bad, good, &mut d) });
+    t!("sub_inplace(bad,good)", { let mut x = bad.clone(); ev.sub_inplace(&mut x, good) });
+    t!("sub_inplace(good,bad)", { let mut x = good.clone(); ev.sub_inplace(&mut x, bad) });
+    t!("add_many([bad,good],dest)", { let mut d = Ciphertext::new(); ev.add_many(&[bad.clone(), good.clone()], &mut d) });
+    t!("multiply(bad,good,dest)", { let mut d = Ciphertext::new(); ev.multiply(bad, good, &mut d) });
+    t!("multiply(good,bad,dest)", { let mut d = Ciphertext::new(); ev.multiply(good, bad, &mut d) });
+    t!("multiply_inplace(bad,good)", { let mut x = bad.clone(); ev.multiply_inplace(&mut x, good) });
+    t!("multiply_inplace(good,bad)", { let mut x = good.clone(); ev.multiply_inplace(&mut x, bad) });
+    t!("square(dest)", { let mut d = Ciphertext::new(); ev.square(bad, &mut d) });
+    t!("square_inplace", { let mut x = bad.clone(); ev.square_inplace(&mut x) });
+    t!("add_plain(dest)", { let mut d = Ciphertext::new(); ev.add_plain(bad, plain, &mut d) });
+    t!("add_plain_inplace", { let mut x = bad.clone(); ev.add_plain_inplace(&mut x, plain) });
+    t!("sub_plain(dest)", { let mut d = Ciphertext::new(); ev.sub_plain(bad, plain, &mut d) });
+    t!("sub_plain_inplace", { let mut x = bad.clone(); ev.sub_plain_inplace(&mut x, plain) });
+    t!("multiply_plain(dest)", { let mut d = Ciphertext::new(); ev.multiply_plain(bad, plain, &mut d) });
+    t!("multiply_plain_inplace", { let mut x = bad.clone(); ev.multiply_plain_inplace(&mut x, plain) });
+    if bad.is_ntt_form() {
+        t!("transform_from_ntt(dest)", { let mut d = Ciphertext::new(); ev.transform_from_ntt(bad, &mut d) });
+        t!("transform_from_ntt_inplace", { let mut x = bad.clone(); ev.transform_from_ntt_inplace(&mut x) });
+    } else {
+        t!("transform_to_ntt(dest)", { let mut d = Ciphertext::new(); ev.transform_to_ntt(bad, &mut d) });
+        t!("transform_to_ntt_inplace", { let mut x = bad.clone(); ev.transform_to_ntt_inplace(&mut x) });
+    }
     if bad.is_ntt_form() { t!("transform_from_ntt_new", ev.transform_from_ntt_new(bad)); } else { t!("transform_to_ntt_new", ev.transform_to_ntt_new(bad)); }
     if kit.levels.len() > 1 {
         t!("mod_switch_to_next_new", ev.mod_switch_to_next_new(bad));
         // switching to the level the operand is already on is a documented no-op: excluded
         if bad.parms_id() != kit.ctx.last_parms_id() { t!("mod_switch_to_new(last)", ev.mod_switch_to_new(bad, kit.ctx.last_parms_id())); }
         if kit.spec.scheme == SchemeType::CKKS { t!("rescale_to_next_new", ev.rescale_to_next_new(bad)); }
+        t!("mod_switch_to_next(dest)", { let mut d = Ciphertext::new(); ev.mod_switch_to_next(bad, &mut d) });
+        t!("mod_switch_to_next_inplace", { let mut x = bad.clone(); ev.mod_switch_to_next_inplace(&mut x) });
+        if bad.parms_id() != kit.ctx.last_parms_id() {
+            t!("mod_switch_to(last,dest)", { let mut d = Ciphertext::new(); ev.mod_switch_to(bad, kit.ctx.last_parms_id(), &mut d) });
+            t!("mod_switch_to_inplace(last)", { let mut x = bad.clone(); ev.mod_switch_to_inplace(&mut x, kit.ctx.last_parms_id()) });
+        }
+        if kit.spec.scheme == SchemeType::CKKS {
+            t!("rescale_to_next(dest)", { let mut d = Ciphertext::new(); ev.rescale_to_next(bad, &mut d) });
+            t!("rescale_to_next_inplace", { let mut x = bad.clone(); ev.rescale_to_next_inplace(&mut x) });
+            // rescaling to the level the operand is already on walks zero steps: excluded like mod_switch_to
+            if bad.parms_id() != kit.ctx.last_parms_id() {
+                t!("rescale_to_new(last)", ev.rescale_to_new(bad, kit.ctx.last_parms_id()));
+                t!("rescale_to(last,dest)", { let mut d = Ciphertext::new(); ev.rescale_to(bad, kit.ctx.last_parms_id(), &mut d) });
+                t!("rescale_to_inplace(last)", { let mut x = bad.clone(); ev.rescale_to_inplace(&mut x, kit.ctx.last_parms_id()) });
+            }
+        }
     }
     if let Some(rk) = rlk {
         // relinearizing a size-2 ciphertext is a documented no-op; use a size-3 operand only
-        if bad.size() == 3 { t!("relinearize_new", ev.relinearize_new(bad, rk)); }
+        if bad.size() == 3 {
+            t!("relinearize_new", ev.relinearize_new(bad, rk));
+            t!("relinearize(dest)", { let mut d = Ciphertext::new(); ev.relinearize(bad, rk, &mut d) });
+            t!("relinearize_inplace", { let mut x = bad.clone(); ev.relinearize_inplace(&mut x, rk) });
+        }
     }
     if let Some(g) = gk {
         if bad.size() == 2 {
             t!("apply_galois_new(3)", ev.apply_galois_new(bad, 3, g));
+            t!("apply_galois(3,dest)", { let mut d = Ciphertext::new(); ev.apply_galois(bad, 3, g, &mut d) });
+            t!("apply_galois_inplace(3)", { let mut x = bad.clone(); ev.apply_galois_inplace(&mut x, 3, g) });
             if kit.spec.scheme == SchemeType::CKKS {
-                if kit.n() >= 4 { t!("rotate_vector_new(1)", ev.rotate_vector_new(bad, 1, g)); }
+                if kit.n() >= 4 {
+                    t!("rotate_vector_new(1)", ev.rotate_vector_new(bad, 1, g));
+                    t!("rotate_vector(1,dest)", { let mut d = Ciphertext::new(); ev.rotate_vector(bad, 1, g, &mut d) });
+                    t!("rotate_vector_inplace(1)", { let mut x = bad.clone(); ev.rotate_vector_inplace(&mut x, 1, g) });
+                }
                 t!("complex_conjugate_new", ev.complex_conjugate_new(bad, g));
+                t!("complex_conjugate(dest)", { let mut d = Ciphertext::new(); ev.complex_conjugate(bad, g, &mut d) });
+                t!("complex_conjugate_inplace", { let mut x = bad.clone(); ev.complex_conjugate_inplace(&mut x, g) });
             } else if kit.batch.is_some() {
-                if kit.n() >= 4 { t!("rotate_rows_new(1)", ev.rotate_rows_new(bad, 1, g)); }
+                if kit.n() >= 4 {
+                    t!("rotate_rows_new(1)", ev.rotate_rows_new(bad, 1, g));
+                    t!("rotate_rows(1,dest)", { let mut d = Ciphertext::new(); ev.rotate_rows(bad, 1, g, &mut d) });
+                    t!("rotate_rows_inplace(1)", { let mut x = bad.clone(); ev.rotate_rows_inplace(&mut x, 1, g) });
+                }
                 t!("rotate_columns_new", ev.rotate_columns_new(bad, g));
+                t!("rotate_columns(dest)", { let mut d = Ciphertext::new(); ev.rotate_columns(bad, g, &mut d) });
+                t!("rotate_columns_inplace", { let mut x = bad.clone(); ev.rotate_columns_inplace(&mut x, g) });
             }
         }
     }
     t!("decrypt_new", kit.dec.decrypt_new(bad));
+    t!("decrypt(dest)", { let mut d = Plaintext::new(); kit.dec.decrypt(bad, &mut d) });
     if kit.spec.scheme != SchemeType::CKKS && !bad.is_ntt_form() { t!("invariant_noise_budget", kit.dec.invariant_noise_budget(bad)); }
     v
+}
+
+/// the refusal matrix on CKKS contexts (the scheme-specific entry points rescale_to_next / rescale_to / rotate_vector /
+/// complex_conjugate are reachable only here): operand states fresh, size 3, lower level x every corruption x every operation form
+fn refusals_ckks(cfg: &Cfg, grp: &str, case: u64, rng: &mut Rng, rep: &mut Report) {
+    let Some(spec) = crate::props::c03::ckks_spec(rng, &[4, 8, 16]) else { return };
+    let Ok(kit) = Kit::new(&spec) else { return };
+    let other = Spec { n: spec.n * 2, qs: match coeff_primes(spec.n * 2, &[40, 41], rng) { Some(q) => q, None => return }, ..spec.clone() };
+    let Ok(octx) = other.context() else { return };
+    let other_id = *octx.first_parms_id();
+    let o = Obs { cfg, grp, case };
+    let rlk = if kit.has_keyswitching() { lib(|| kit.keygen.create_relin_keys(false)).ok() } else { None };
+    let gk = if kit.has_keyswitching() { lib(|| kit.keygen.create_galois_keys(false)).ok() } else { None };
+    let trace: Vec<String> = vec![];
+    let n = kit.n(); let enc = kit.ckks.as_ref().unwrap();
+    let bits0: usize = kit.level_qs(0).iter().map(|&q| refm_bits(q)).sum();
+    let sb = rng.range(10, ((bits0 / 3).max(12)).min(40) as u64) as i32; let scale = 2f64.powi(sb);
+    let vals = |rng: &mut Rng| -> Vec<C64> { (0..n / 2).map(|_| C64::new(rng.f64() * 4.0 - 2.0, rng.f64() * 2.0 - 1.0)).collect() };
+    let (va, vb) = (vals(rng), vals(rng));
+    let (Ok(a), Ok(b)) = (lib(|| kit.enc.encrypt_new(&enc.encode_c64_array_new(&va, None, scale))), lib(|| kit.enc.encrypt_new(&enc.encode_c64_array_new(&vb, None, scale)))) else { rep.out_of_precondition += 1; return };
+    let mut states: Vec<(String, Ciphertext, Ciphertext)> = vec![("fresh".into(), a.clone(), b.clone())];
+    if 2 * sb as usize + 2 < bits0 { if let Ok(p) = lib(|| kit.eval.multiply_new(&a, &b)) { states.push(("size3".into(), p, lib(|| kit.eval.multiply_new(&b, &a)).unwrap_or(a.clone()))); } }
+    if kit.levels.len() > 1 { if let (Ok(x), Ok(y)) = (lib(|| kit.eval.mod_switch_to_next_new(&a)), lib(|| kit.eval.mod_switch_to_next_new(&b))) { states.push(("lower_level".into(), x, y)); } }
+    if kit.levels.len() > 2 { if let (Ok(x), Ok(y)) = (lib(|| kit.eval.mod_switch_to_new(&a, kit.ctx.last_parms_id())), lib(|| kit.eval.mod_switch_to_new(&b, kit.ctx.last_parms_id()))) { states.push(("last_level".into(), x, y)); } }
+    for (sname, victim, partner) in &states {
+        let pv = vals(rng);
+        let Ok(plain) = lib(|| enc.encode_c64_array_new(&pv, Some(*victim.parms_id()), victim.scale())) else { rep.out_of_precondition += 1; continue };
+        if lib(|| kit.eval.negate_new(victim)).is_err() { rep.harness_errors.push(format!("valid CKKS state {} refused", sname)); continue; }
+        rep.count("ckks_refusal_states", sname);
+        for &c in CORRS.iter() {
+            let Some(bad) = corrupt_ct(&kit, &other_id, victim, c, rng) else { continue };
+            for (opname, r) in ct_ops(&kit, rlk.as_ref(), gk.as_ref(), partner, &bad, &plain) {
+                rep.count("refusal_cells", &format!("{:?}|{}", c, opname));
+                rep.count("refusal_cells_ckks", &format!("{:?}|{}", c, opname));
+                rep.eval(Some(&format!("CKKS|{:?}|{}|{}", c, opname, sname)));
+                if r.is_ok() {
+                    viol(&o, rep, opname, &format!("CKKS|{:?}", c), "not_refused", format!("operand state {} with corruption {:?} was computed on instead of refused", sname, c), &spec, &trace);
+                }
+            }
+        }
+    }
 }
 
 fn refusals(cfg: &Cfg, grp: &str, case: u64, rng: &mut Rng, rep: &mut Report) {
@@ -411,6 +516,7 @@ pub fn run(cfg: &Cfg, rep: &mut Report) -> PropMeta {
     run_cases(cfg, "programs", cfg.n(24000, 300000) as u64, rep, |i, rng, rep| programs(cfg, "programs", i, rng, rep, &[2, 4, 8, 16, 32]));
     run_cases(cfg, "programs_mid", cfg.n(100, 2000) as u64, rep, |i, rng, rep| programs(cfg, "programs_mid", i, rng, rep, &[64, 256, 1024]));
     run_cases(cfg, "refusals", cfg.n(3000, 40000) as u64, rep, |i, rng, rep| refusals(cfg, "refusals", i, rng, rep));
+    run_cases(cfg, "refusals_ckks", cfg.n(800, 12000) as u64, rep, |i, rng, rep| refusals_ckks(cfg, "refusals_ckks", i, rng, rep));
     run_cases(cfg, "plain_ops", cfg.n(1500, 20000) as u64, rep, |i, rng, rep| plain_ops(cfg, "plain_ops", i, rng, rep, &[4, 8, 16, 64]));
     run_cases(cfg, "plain_ops_mid", cfg.n(8, 100) as u64, rep, |i, rng, rep| plain_ops(cfg, "plain_ops_mid", i, rng, rep, &[1024, 4096]));
     crate::props::c03::c06_hook(cfg, rep);
